@@ -77,6 +77,10 @@ class Flow:
             return self.slot_origin(fn, expr, None, depth, before, stack)
         if isinstance(expr, ast.IfExp):
             return self.origin(fn, expr.body, depth + 1, before, stack) | self.origin(fn, expr.orelse, depth + 1, before, stack)
+        if isinstance(expr, ast.Subscript) and isinstance(expr.slice, ast.Constant) and isinstance(expr.slice.value, int) \
+                and not isinstance(expr.slice.value, bool) and expr.slice.value >= 0:
+            # <tuple-valued expression>[k]: slot k of what the expression stands for (a call result kept whole, then indexed)
+            return self.slot_origin(fn, expr.value, expr.slice.value, depth, before, stack)
         if isinstance(expr, ast.Subscript) and isinstance(expr.value, ast.Name) and str_const(expr.slice) is not None:
             # d["k"]: the latest store d["k"] = v in this function
             key = str_const(expr.slice)
@@ -139,6 +143,14 @@ class Flow:
             return out
         if slot is None:
             return self.origin(fn, value, depth + 1, before, stack)
+        if isinstance(value, ast.Name):
+            # slot of a local that holds a whole tuple: follow its definitions
+            ds = self.defs(fn, value.id, before)
+            if ds and all(sl == "whole" for sl, _, _ in ds):
+                out = set()
+                for _, v_, st in ds:
+                    out |= self.slot_origin(fn, v_, slot, depth, st.lineno, stack)
+                return out
         return {"expr:" + norm_src(value)[:60] + f"[{slot}]"}
 
     def bind(self, callee, call, pname):
